@@ -12,7 +12,7 @@ EXPLANATION = ("(R10.4) sync_inner_with_uncompressed_pos seeks the inner layer a
                "position-dependent field on all Ok paths (compression: state with a decompressor created in the same call, underlayer_pos; encryption: "
                "current_chunk_number, cipher + cache through load_in_cache, cache cursor; raw: inner seek with the header offset); new struct fields are "
                "reported; (R10.3, thorough) compile-fail witnesses: a second get_file/get_hash while an ArchiveFile is alive does not borrow-check. "
-               "(R10.5) a reader never turns `0 bytes transferred` into an error unless the request was non-empty: reads with buffers of any size, empty ones included, leave the layer usable. "
+               "R10.1 also requires every hash get_hash returns to come from the EndOfFile block parsed in the same call (nothing remembered from earlier operations). (R10.5) a reader never turns `0 bytes transferred` into an error unless the request was non-empty: reads with buffers of any size, empty ones included, leave the layer usable. "
                "Equality of the returned bytes along a history is runtime and not decided.")
 TRUSTED = ['rustc MIR and borrow checker', 'std::io::Seek semantics of the underlying source']
 ASSUMPTIONS = ['the numeric correctness of the position arithmetic is not decided (C11 not applicable)']
